@@ -7,6 +7,7 @@ import (
 	"time"
 
 	"github.com/arloliu/go-secs/v2/hsms"
+	"github.com/arloliu/go-secs/v2/hsmsss"
 	"github.com/arloliu/go-secs/v2/secs2"
 
 	"verif/e2"
@@ -20,18 +21,26 @@ import (
 
 const sysDraws = 1<<16 + 10
 
+// sysStarts: where the counter stands when the run begins (hsms.VerifC06SetSysBytes); every
+// positioned run draws sysEdgeDraws values and so crosses the boundary it starts below. The
+// fresh run (from 0) crosses 2^8 and 2^16 by counting.
+var sysStarts = []uint32{1<<24 - 300, 1<<31 - 300, 1<<32 - 300, 1<<32 - 2, 1<<32 - 1}
+
+const sysEdgeDraws = 2000
+
 func partSysBytes(c *vfw.Ctx, t *testing.T) {
-	if !c.Next() {
-		return
+	if c.Next() && !c.Expired() {
+		checkSysBytes(c, t, 0, false, sysDraws)
 	}
-	if c.Expired() {
-		return
+	for _, st := range sysStarts {
+		if c.Next() && !c.Expired() {
+			checkSysBytes(c, t, st, true, sysEdgeDraws)
+		}
 	}
-	checkSysBytes(c, t)
 }
 
-func checkSysBytes(c *vfw.Ctx, t *testing.T) {
-	rc := replayCase{Part: "sysbytes"}
+func checkSysBytes(c *vfw.Ctx, t *testing.T, start uint32, positioned bool, sysDraws int) {
+	rc := replayCase{Part: "sysbytes", SysStart: start, SysPositioned: positioned}
 	var fail *failure
 	draws, ctrl := 0, 0
 	onLeak = func(stacks string) {
@@ -51,6 +60,10 @@ func checkSysBytes(c *vfw.Ctx, t *testing.T) {
 			hsms.WithLinktestInterval(time.Second), hsms.WithLinktestSuppression(false),
 		}}
 		w.NewConn(o)
+		if positioned && !hsms.VerifC06SetSysBytes(hsmsss.VerifCore(w.C), start) {
+			bad("harness", "cannot position the system-bytes counter")
+			return
+		}
 		if err := w.Establish(o); err != nil {
 			bad("harness", "establish: %v", err)
 			return
@@ -63,11 +76,11 @@ func checkSysBytes(c *vfw.Ctx, t *testing.T) {
 		// draw records one library-generated system-bytes value read off the wire
 		draw := func(f peer.Frame, what string) bool {
 			if open[f.Sys] {
-				bad("sysbytes:collision-open", "draw %d (%s): system bytes %08x equal those of a transaction that is still open", draws, what, f.Sys)
+				bad("sysbytes:collision-open", "counter started at %08x: draw %d (%s): system bytes %08x equal those of a transaction that is still open", start, draws, what, f.Sys)
 				return false
 			}
 			if k, dup := seen[f.Sys]; dup {
-				bad("sysbytes:repeat", "draw %d (%s): system bytes %08x already used by draw %d (%d draws apart)", draws, what, f.Sys, k, draws-k)
+				bad("sysbytes:repeat", "counter started at %08x: draw %d (%s): system bytes %08x already used by draw %d (%d draws apart)", start, draws, what, f.Sys, k, draws-k)
 				return false
 			}
 			seen[f.Sys] = draws
